@@ -61,7 +61,7 @@ Proof. reflexivity. Qed.
 Section Window.
 Variable m : bytes.
 Variables b len : nat.
-Hypothesis Hwin : b + len <= length m.
+Variable Hwin : b + len <= length m.
 Let w := sub m b len.
 
 Lemma w_length : length w = len.
